@@ -51,6 +51,16 @@ D = {
  "S-C13-4": ("MigrateShard files the new shard under the old shard's order instead of the order that lists it", "migration of a shard with a queued renewal, the paying order ends while the migration is pending"),
  "S-C14-4": ("rotation into a renewal also sets shard.Pledge to the renewal's collateral", "renewal shorter than the running period, rotation, final expiry"),
  "S-C16-4": ("Store skips the base-commit comparison for force-pushes", "force-push naming a stale or garbage base on a committed model"),
+ "S-C01-4": ("RandomSP rebuilds the candidate list by ranging over a Go map after deleting the ignored providers", "a selection with a non-empty ignore list (timeout re-assignment, migration) and >= 2 remaining candidates that tie"),
+ "S-C02-4": ("RemoveVstorage takes the requested byte count (not the rounded one) off the pledge and the pool", "unaligned removals until every provider has no capacity left while coins stay pledged: division by zero in BeginBlock"),
+ "S-C03-4": ("model keeper keeps an in-memory index of heights with ExpiredData entries (not transactional)", "a simulated or failed transaction that reschedules a model, then the chain reaches the old height; a restarted node rebuilds the index"),
+ "S-C09-4": ("model UpdatePermission treats a request with exactly one empty list as a partial update", "owner demotes a read-write grantee to read-only (readwrite list empty)"),
+ "S-C10-4": ("Store compares the sponsor's payment address with msg.Provider instead of msg.Creator", "a Store naming somebody else's payment DID with msg.Provider = that sponsor's address"),
+ "S-C15-4": ("Migrate no longer excludes providers holding a Migrating shard of the order", "a second holder migrates the same data while the first hand-over is pending"),
+ "S-C17-4": ("eip155 binding proofs compare the recovered address case-insensitively while records are keyed by the raw account id", "the same ethereum account bound to a second DID under another letter case"),
+ "S-C18-4": ("market ExportGenesis skips workers with no storage and less than one coin of reward", "an idle worker holding a fraction of a coin at export time"),
+ "S-C19-4": ("RecoverFaults checks only provider and shard id of an entry against the stored record", "recovery declared with a self-consistent entry for another order carrying the faulty shard's id"),
+ "S-C20-4": ("verifySuperStorageNodes re-verifies only the delegator's own node when the delegator is a node", "super node A diluted below the threshold by a delegation of another storage node B"),
  "S-C20-2": ("the staking hook takes the absolute value of the share delta, so a top-up is counted as a reduction", "a node right around the share threshold whose delegation is modified (top-up) after another delegation changed the validator's total"),
 }
 res = collections.defaultdict(list)
